@@ -66,6 +66,7 @@ func (fr *Frame) callWith(in ssa.Instruction, c *ssa.CallCommon, recv Value, arg
 		for i, t := range resultTypes(c.Signature()) {
 			out = append(out, s.symValue(t, fmt.Sprintf("funcvalue.ret%d", i)))
 		}
+		s.assumeResultConvention(c.Signature(), out)
 		return out
 	}
 	unsup("call of %T", recv)
